@@ -32,6 +32,7 @@ RULES = {
     "R16.3": "failed/ended connection forgotten on the send side: round-robin, REQ send/recv, PUB reader, PUB/XPUB send",
     "R16.4": "every peer_disconnected impl removes the table entry of its argument",
     "R16.5": "leftover ready event of a removed peer is skipped (C06 R06.1)",
+    "R16.F": "foundation clauses re-evaluated as necessary conditions: " + ", ".join(['identity']),
 }
 
 
@@ -87,7 +88,12 @@ def check_failed_announce(ctx, f, rep):
     rep.floor("R16.3", "SUB registering paths examined for a failed announcement", n, 1)
 
 
+DEPENDS = ['identity']     # foundation groups re-evaluated as necessary conditions (rules/found.py)
+
+
 def run(ctx, f, rep):
+    from . import found
+    found.import_groups(ctx, f, rep, 'C16', DEPENDS)
     check_failed_announce(ctx, f, rep)
     info = analyse_disconnect_impls(f, rep)
     # ---- R16.1 recv error arms
